@@ -36,6 +36,28 @@ pub fn dispatch(p: &[String]) -> String {
             generated::from_str(&p[1], &String::from_utf8_lossy(&bytes))
         }
         "from_bits" => generated::from_bits(&p[1], p[2].parse::<u32>().unwrap()),
+        "scenario" => {
+            let raw = unhex(if p.len() > 2 { &p[2] } else { "" });
+            match vscen::run(&p[1], &raw) {
+                Some(c) => format!("{{\"code\": {}}}", c),
+                None => "{\"error\": \"unknown scenario\"}".to_string(),
+            }
+        }
+        "parse_script" => {
+            // parse_script <hex bytes> <answers: one of C/S/E per callback, in call order; missing = C>
+            let bytes = unhex(&p[1]);
+            let answers: Vec<char> = if p.len() > 2 { p[2].chars().collect() } else { vec![] };
+            let mut c = crate::consumer::Scripted::new(answers);
+            let r = rspirv::binary::parse_bytes(&bytes, &mut c);
+            let res = match r {
+                Ok(()) => "\"Ok\"".to_string(),
+                Err(e) => jstr(&format!("{:?}", e)),
+            };
+            format!("{{\"events\": [{}], \"result\": {}}}", c.log.iter().map(|x| jstr(x)).collect::<Vec<_>>().join(", "), res)
+        }
+        "loader_step" => crate::sweep::loader_step(p[1] == "1", p[2] == "1", p[3].parse::<u32>().unwrap()),
+        "loader_finalize" => crate::sweep::loader_finalize(p[1] == "1", p[2] == "1"),
+        "traversal_sweep" => crate::sweep::traversal_sweep(),
         "lookup" => {
             use rspirv::grammar as g;
             let n = p[2].parse::<u32>().unwrap();
